@@ -42,8 +42,9 @@ What was added for each is in section 8. Release-only changes (C01-d, C03-c, C05
 C05-h, C12-i, C13-f) and debug-only ones (C03-h, C03-n, C05-j, C05-m, C06-j, C07-j, C10-f, C11-h, C15-l, C18-l) are caught
 because every behavioural check runs a build with and a build without debug assertions. Regression runs
 (tools/recheck_all.sh, every kept change against the then current checks): the complete set after round 5; C01-C11
-(a-l) and C12 a-e again after the additions of round 6, all detected; the re-run of C12 f-j and C13-C18 a-l after
-round 6 was cut short for time (the additions since then are new workloads and new laws; nothing was removed except
+(a-l) and C12 a-e again after the additions of round 6, and C13, C14, C17 (a-l, the checks whose workloads changed
+most in round 7) and C18 a/b/e/i/k (the changes the narrowed gate has to catch) again after round 7: all detected;
+the re-run of C12 f-l, C15 and C16 after round 6 was cut short for time (the additions since then are new workloads and new laws; nothing was removed except
 the iterator `Send`/`Sync` assertions of the C18 gate, which none of the kept C18 changes relied on: their first
 signatures are in the table).
 """ % (len(rows), "\n".join(rows))
